@@ -80,7 +80,7 @@ type config struct {
 	Class        string // stack | pool | envpool | symtab
 }
 
-func slotsEnv(slots int) string  { return fmt.Sprint(slots * int(value.ValueSize)) }
+func slotsEnv(slots int) string   { return fmt.Sprint(slots * int(value.ValueSize)) }
 func framesEnv(frames int) string { return fmt.Sprint(frames * int(vm.CallFrameSize)) }
 
 const bigCallStackFrames = 4096
@@ -219,8 +219,13 @@ func runChildT(p program, cfg config, limitS int) childOut {
 		out.Crash = crashSig(stderr)
 		return out
 	}
-	if ee, ok := runErr.(*exec.ExitError); ok && (ee.ExitCode() == -1 || ee.ExitCode() > 2) {
-		out.Crash = "process died: " + ee.String()
+	if ee, ok := runErr.(*exec.ExitError); ok {
+		// the process died in some other way (e.g. "fatal: bad g in signal handler" after memory corruption, a signal)
+		first := strings.TrimSpace(firstLine(strings.TrimSpace(stderr)))
+		if first == "" {
+			first = ee.String()
+		}
+		out.Crash = "process died: " + numRe.ReplaceAllString(firstN(first, 80), "N")
 		return out
 	}
 	panic(fmt.Sprintf("infrastructure: child failed: %v\nstdout: %s\nstderr: %s", runErr, tailStr(so.String(), 500), tailStr(stderr, 2000)))
@@ -266,6 +271,7 @@ func crashHead(stderr string) string {
 }
 
 var recoveredRe = regexp.MustCompile(`\s*\[recovered\].*`)
+var numRe = regexp.MustCompile(`0x[0-9a-f]+|\b\d+\b`)
 
 func crashSig(stderr string) string {
 	h := crashHead(stderr)
